@@ -1254,3 +1254,8 @@ M("C08-idle-returned-from-wait", "C08", [(DRIVE, '''                Progress::Ad
                 Progress::Idle if self.session.runtime.next_ping.is_none() => return Ok(Progress::Idle),
                 Progress::Idle => {}''')],
   ["C08/unreachable/poll-recv"])
+
+# independently produced behaviour-preserving refactorings (one sub-agent per area; each passes the 132 tests)
+ALL19 = ["C%02d" % i for i in range(1, 21) if i != 16]
+for _r in ("R1", "R2", "R3", "R4", "R5", "R6"):
+    RF("RF-agent-%s" % _r, ALL19, [("@patch", "selftest/refactors/%s.diff" % _r, "")])
